@@ -427,14 +427,30 @@ def run(ctx):
                 opl = int(m.group(2))
                 opslot = int(m.group(3))
                 dim, state = parse_info(m.group(5))
+                def full_lineage(line, slot, depth=0):
+                    out = []
+                    for (n, t, cs) in lineage(hist, line, slot):
+                        if not t.startswith("op "):
+                            continue
+                        out.append((n, t))
+                        tt = t.split()
+                        if tt[2] in BINARY and depth < 3 and tt[3].isdigit() and int(tt[3]) != cs:
+                            out += full_lineage(n, int(tt[3]), depth + 1)
+                    return out
+                # candidates: the operations since the last synchronising description (a semantic defect shows
+                # there), plus, on the whole lineage (arguments of binary operations included), the operations
+                # whose known defect is a *latent* corruption of the representation that still prints correctly
+                LATENT = ("remove_higher_space_dimensions",)
+                def latent(line, slot):
+                    return [(n, t) for (n, t) in full_lineage(line, slot) if api_of(t) in LATENT]
                 if m.group(4) != "-":
-                    # an observer crashed: every operation on the lineage of that slot is a candidate
-                    # (a corrupted representation can survive descriptions that still print correctly)
-                    cands = [(n, t) for (n, t, _) in lineage(hist, ln, int(m.group(4))) if t.startswith("op ")]
+                    sl = int(m.group(4))
+                    cands = candidates(hist, ln, sl) + latent(ln, sl)
                 else:
-                    cands = [(opl, J[opl - 1])] + candidates(hist, opl, opslot)
+                    cands = [(opl, J[opl - 1])] + candidates(hist, opl, opslot) + latent(opl, opslot)
                     if len(J[opl - 1].split()) > 3 and J[opl - 1].split()[2] in BINARY and J[opl - 1].split()[3].isdigit():
-                        cands += candidates(hist, opl, int(J[opl - 1].split()[3]))
+                        a = int(J[opl - 1].split()[3])
+                        cands += candidates(hist, opl, a) + latent(opl, a)
                 first = None
                 for (n, t) in cands:
                     st_, tg_ = op_site_tags(hist, n, t, "", "")
@@ -611,3 +627,18 @@ def run(ctx):
         "a history in which a known finding corrupted the state is not judged further (counted under "
         "verdicts.ignored_after_known_finding_in_same_history)",
     ]
+
+
+def replay(ctx, path):
+    """Re-run the recorded history (same seed, history number and length) on the current tree and re-judge it."""
+    r = json.load(open(path))
+    print("property=%s what=%s" % (r.get("property"), r.get("what")))
+    print("replay_cmd: %s" % r.get("replay_cmd"))
+    ctx.replay = path
+    ctx.seed = r.get("seed", ctx.seed)
+    run(ctx)
+    for k in ctx.known_hits:
+        pass
+    if not ctx.violations:
+        print("no violation when the history is re-run on the current tree (%d known-finding line(s))" % len(ctx.known_hits))
+    return 1 if ctx.violations else 0
